@@ -31,6 +31,15 @@ J('A.strcpy_s.arena', CORE_PROPS, 'A', 'contracts/str/strcpy_s.spec.c',
   timeout=1200, mem_gb=6,
   note='layout A: one arena, disjoint extents, both pointer orders; destbos unknown; sizes symbolic up to RSIZE_MAX_STR')
 
+J('A.strnlen_s', ['C02', 'C10', 'C05', 'C01'], 'A', 'contracts/str/strnlen_s.spec.c',
+  sources=['src/str/strnlen_s.c'], overlays={'src/str/strnlen_s.c': 'contracts/str/strnlen_s.loops'},
+  enforce='_strnlen_s_chk', functions=['_strnlen_s_chk'], sliced=False, timeout=600, fallback='B.q.strnlen_s',
+  note='exact-fit object of symbolic size, smax any 64-bit value, object size known or unknown to the library')
+J('A.wcsnlen_s', ['C02', 'C10', 'C05', 'C01'], 'A', 'contracts/str/strnlen_s.spec.c', defines=['WIDE'],
+  sources=['src/wchar/wcsnlen_s.c'], overlays={'src/wchar/wcsnlen_s.c': 'contracts/wchar/wcsnlen_s.loops'},
+  enforce='_wcsnlen_s_chk', functions=['_wcsnlen_s_chk'], sliced=False, timeout=600, fallback='B.q.wcsnlen_s',
+  note='exact-fit object of symbolic size, smax any 64-bit value, object size known or unknown to the library')
+
 # ---- engine B: copy / concatenate family against the reference model in harness/copyfam.c
 STR_COMMON = ['src/str/safe_str_constraint.c', 'src/str/strnlen_s.c', 'src/ignore_handler_s.c']
 WCS_COMMON = STR_COMMON + ['src/wchar/wcsnlen_s.c']
